@@ -395,4 +395,165 @@ theorem identity_bounds {n i : Nat} (hi : i < n) : i * (n + 1) < n * n := by
   calc i * (n + 1) = i + n * i := by ring
     _ < n * n := lt_mul_of_lt hi hi
 
+/-! ### "fw and bw visit the same index pairs" (operands with equal minibatch size) -/
+
+theorem hb_recompose' {V B t : Nat} (ht : t < V * B) :
+    t / V * ((if B = 1 then 0 else 1) * V) + t % V = t := by
+  by_cases h : B = 1
+  · subst h
+    rw [Nat.mul_one] at ht
+    simp [Nat.div_eq_of_lt ht, Nat.mod_eq_of_lt ht]
+  · simp only [h, if_false, Nat.one_mul]
+    have := Nat.div_add_mod t V
+    rw [Nat.mul_comm]; exact this
+
+theorem inplaceAdd_same_idx {V B : Nat} :
+    (inplaceAddMoves V (max B B) ((if B = 1 then 0 else 1) * V) ((if B = 1 then 0 else 1) * V)).count = V * B ∧
+    ∀ t, t < V * B →
+      (inplaceAddMoves V (max B B) ((if B = 1 then 0 else 1) * V) ((if B = 1 then 0 else 1) * V)).sidx t = t ∧
+      (inplaceAddMoves V (max B B) ((if B = 1 then 0 else 1) * V) ((if B = 1 then 0 else 1) * V)).didx t = t := by
+  simp only [inplaceAddMoves, max_self]
+  exact ⟨by ring, fun t ht => ⟨hb_recompose' ht, hb_recompose' ht⟩⟩
+
+theorem sliceFw_trivial {L R t : Nat} : (sliceFwMoves L (L * 1) (L * 1) R 0).sidx t = t := by
+  simp only [sliceFwMoves, Nat.mul_one, Nat.mul_zero, Nat.zero_add]
+  have := Nat.div_add_mod t L
+  rw [Nat.mul_comm]; exact this
+
+theorem sliceBw_same_idx {L ny nx U B off : Nat} (hoff : L * off < W) :
+    let bw := sliceBwMoves L (L * ny) (L * nx) U (max B B) ((if B = 1 then 0 else 1) * (L * nx * U))
+      ((if B = 1 then 0 else 1) * (L * ny * U)) off
+    let fw := sliceFwMoves L (L * ny) (L * nx) (U * B) off
+    bw.count = fw.count ∧ ∀ t, t < fw.count → bw.sidx t = t ∧ bw.didx t = fw.sidx t := by
+  intro bw fw
+  have hm : mul32 L off = L * off := Nat.mod_eq_of_lt hoff
+  refine ⟨by simp only [bw, fw, sliceBwMoves, sliceFwMoves, max_self]; ring, ?_⟩
+  intro t ht
+  simp only [fw, sliceFwMoves] at ht
+  simp only [bw, fw, sliceBwMoves, sliceFwMoves, hm]
+  have ht' : t < L * ny * U * B := by calc t < U * B * (L * ny) := ht
+                                          _ = L * ny * U * B := by ring
+  have r1 := hb_recompose' ht'
+  have e1 : t % (L * ny * U) = t / (L * ny) % U * (L * ny) + t % (L * ny) := by
+    rw [Nat.mod_mul]; ring
+  have e2 : t / (L * ny) = t / (L * ny * U) * U + t / (L * ny) % U := by
+    have := Nat.div_add_mod (t / (L * ny)) U
+    rw [Nat.div_div_eq_div_mul, Nat.mul_comm U] at this
+    exact this.symm
+  constructor
+  · calc t / (L * ny * U) * ((if B = 1 then 0 else 1) * (L * ny * U)) + t / (L * ny) % U * (L * ny) + t % (L * ny)
+        = t / (L * ny * U) * ((if B = 1 then 0 else 1) * (L * ny * U)) + t % (L * ny * U) := by rw [e1]; ring
+      _ = t := r1
+  · by_cases h1 : B = 1
+    · subst h1
+      have hq : t / (L * ny * U) = 0 := Nat.div_eq_of_lt (by rw [Nat.mul_one] at ht'; exact ht')
+      have e3 : t / (L * ny) % U = t / (L * ny) := by rw [e2, hq] at *; simp
+      simp only [if_true, Nat.zero_mul, Nat.mul_zero, Nat.add_zero, e3]
+    · simp only [h1, if_false, Nat.one_mul]
+      conv => rhs; rw [e2]
+      ring
+
+/-! ### flip and transpose as index maps on the flat range -/
+
+/-- the flat index of the mirrored position along the axis -/
+def flipMap (L n i : Nat) : Nat := comp3 L n (below L i) (n - 1 - onAxis L n i) (above L n i)
+
+theorem flipMap_lt {L n R i : Nat} (hL : 0 < L) (hn : 0 < n) (hi : i < L * n * R) : flipMap L n i < L * n * R :=
+  comp3_lt (below_lt hL) (by have := onAxis_lt (lo := L) (i := i) hn; omega) (above_lt hi)
+
+theorem flipMap_invol {L n i : Nat} (hL : 0 < L) (hn : 0 < n) : flipMap L n (flipMap L n i) = i := by
+  have hk := onAxis_lt (lo := L) (i := i) hn
+  have hk' : n - 1 - onAxis L n i < n := by omega
+  unfold flipMap
+  rw [below_comp3 (below_lt hL), onAxis_comp3 (below_lt hL) hk', above_comp3 (below_lt hL) hk']
+  have : n - 1 - (n - 1 - onAxis L n i) = onAxis L n i := by omega
+  rw [this, comp3_decomp]
+
+/-- the step of the flip loop that writes flat index `i`, and what it reads -/
+theorem flip_step_of {L n R i : Nat} (hL : 0 < L) (hn : 0 < n) (hi : i < L * n * R) :
+    ∃ t, t < (flipMoves n L (L * R)).count ∧ (flipMoves n L (L * R)).didx t = i ∧
+      (flipMoves n L (L * R)).sidx t = flipMap L n i := by
+  have hk := onAxis_lt (lo := L) (i := i) hn
+  have ⟨h1, h2, h3⟩ := flipStep_spec (L := L) (n := n) (R := R) (below_lt (i := i) hL) hk (above_lt hi)
+  refine ⟨_, h1, by rw [h2, comp3_decomp], ?_⟩
+  rw [h3]; unfold flipMap; congr 1; omega
+
+theorem transpose_didx_invol {d1 d2 B o : Nat} (h1 : 0 < d1) (h2 : 0 < d2) :
+    (transposeMoves d2 d1 B).didx ((transposeMoves d1 d2 B).didx o) = o := by
+  have e := comp3_decomp d1 d2 o
+  unfold comp3 at e
+  have hi := below_lt (i := o) h1
+  have hj := onAxis_lt (lo := d1) (i := o) h2
+  conv => lhs; rw [← e]
+  rw [transpose_didx B hi hj, transpose_didx B hj hi]
+  exact e
+
+theorem transpose_didx_lt {d1 d2 B o : Nat} (ho : o < d1 * d2 * B) : (transposeMoves d1 d2 B).didx o < d1 * d2 * B :=
+  ((transpose_bounds d1 d2 B) o (by simp only [transposeMoves]; calc o < d1 * d2 * B := ho
+                                                                    _ = B * (d1 * d2) := by ring)).2
+
+/-! ### the batch structure of the backward loops whose destination has batch 1 -/
+
+/-- counters of step `t0 + K * b` of a loop nest `for b: for i < U: for j < C`, `K = U * C` -/
+theorem seq3_batch {U C t0 b : Nat} (ht0 : t0 < U * C) :
+    (t0 + U * C * b) % C = t0 % C ∧ (t0 + U * C * b) / C % U = t0 / C % U ∧ (t0 + U * C * b) / (C * U) = b := by
+  have hC : 0 < C := by
+    rcases Nat.eq_zero_or_pos C with h | h
+    · subst h; simp at ht0
+    · exact h
+  have hU : 0 < U := by
+    rcases Nat.eq_zero_or_pos U with h | h
+    · subst h; simp at ht0
+    · exact h
+  have e1 : t0 + U * C * b = t0 + C * (U * b) := by ring
+  refine ⟨by rw [e1, Nat.add_mul_mod_self_left], ?_, ?_⟩
+  · rw [e1, Nat.add_mul_div_left _ _ hC, Nat.add_mul_mod_self_left]
+  · rw [← Nat.div_div_eq_div_mul, e1, Nat.add_mul_div_left _ _ hC, Nat.add_mul_div_left _ _ hU,
+      Nat.div_eq_of_lt (Nat.div_lt_of_lt_mul (by rw [Nat.mul_comm]; exact ht0))]
+    omega
+
+/-- slice_bw into a batch-1 `gx` from a `gy` with `B` samples: step `t0 + K b`
+writes where the one-sample call writes at step `t0` and reads sample `b` -/
+theorem sliceBw_fold_idx {L ny nx U B off Vx t0 b : Nat} (ht0 : t0 < U * (L * ny)) (hb : b < B) :
+    let m := sliceBwMoves L (L * ny) (L * nx) U (max 1 B) ((if (1 : Nat) = 1 then 0 else 1) * Vx)
+      ((if B = 1 then 0 else 1) * (L * ny * U)) off
+    let m1 := sliceBwMoves L (L * ny) (L * nx) U (max 1 1) ((if (1 : Nat) = 1 then 0 else 1) * Vx)
+      ((if (1 : Nat) = 1 then 0 else 1) * (L * ny * U)) off
+    m.count = B * (U * (L * ny)) ∧ m1.count = U * (L * ny) ∧
+    m.didx (t0 + U * (L * ny) * b) = m1.didx t0 ∧
+    m.sidx (t0 + U * (L * ny) * b) = m1.sidx t0 + (L * ny * U) * b := by
+  intro m m1
+  have hB : 0 < B := by omega
+  have ⟨e1, e2, e3⟩ := seq3_batch (U := U) (C := L * ny) (t0 := t0) (b := b) ht0
+  have ⟨f1, f2, f3⟩ := seq3_batch (U := U) (C := L * ny) (t0 := t0) (b := 0) ht0
+  simp only [Nat.mul_zero, Nat.add_zero] at f1 f2 f3
+  refine ⟨by simp only [m, sliceBwMoves]; rw [Nat.max_eq_right hB]; ring, by simp only [m1, sliceBwMoves]; simp, ?_, ?_⟩
+  · simp only [m, m1, sliceBwMoves, if_true, Nat.zero_mul, Nat.mul_zero, Nat.add_zero]
+    rw [e1, e2]
+  · simp only [m, m1, sliceBwMoves, if_true, Nat.zero_mul, Nat.mul_zero, Nat.zero_add]
+    rw [e1, e2, e3]
+    by_cases h1 : B = 1
+    · subst h1
+      have : b = 0 := by omega
+      subst this; simp
+    · simp only [h1, if_false, Nat.one_mul]; ring
+
+/-- pick_bw into a batch-1 `gx`: step `t0 + K b` writes where the one-sample call
+with the single id `ids[b]` writes at step `t0`, and reads sample `b` of `gy` -/
+theorem pickBw_fold_idx {L nx U Vx t0 b : Nat} {ids : List Nat} (ht0 : t0 < U * L) (hb : b < max 1 ids.length) :
+    let m := (pickMoves (max 1 ids.length) ((if (1 : Nat) = 1 then 0 else 1) * Vx) (b2n (ids.length > 1)) L (L * nx) U ids).swap
+    let m1 := (pickMoves (max 1 1) ((if (1 : Nat) = 1 then 0 else 1) * Vx) (b2n ([ids.getD (b * b2n (ids.length > 1)) 0].length > 1))
+      L (L * nx) U [ids.getD (b * b2n (ids.length > 1)) 0]).swap
+    m.count = max 1 ids.length * (U * L) ∧ m1.count = U * L ∧
+    m.didx (t0 + U * L * b) = m1.didx t0 ∧ m.sidx (t0 + U * L * b) = m1.sidx t0 + (U * L) * b := by
+  intro m m1
+  have ⟨e1, e2, e3⟩ := seq3_batch (U := U) (C := L) (t0 := t0) (b := b) ht0
+  have ⟨f1, f2, f3⟩ := seq3_batch (U := U) (C := L) (t0 := t0) (b := 0) ht0
+  simp only [Nat.mul_zero, Nat.add_zero] at f1 f2 f3
+  refine ⟨by simp only [m, Moves.swap, pickMoves]; ring, by simp only [m1, Moves.swap, pickMoves]; simp, ?_, ?_⟩
+  · simp only [m, m1, Moves.swap, pickMoves, if_true, Nat.zero_mul, Nat.mul_zero, Nat.zero_add]
+    rw [e1, e2, e3, f3]
+    simp [b2n]
+  · simp only [m, m1, Moves.swap, pickMoves]
+
 end Primitiv.Move
